@@ -69,6 +69,9 @@ type World struct {
 	Store    *Store
 	Provider *provider.Provider
 	Handler  http.Handler
+	// OccBase: per storage operation, the number of calls made by earlier requests of a history (fault occurrences of
+	// the judged request are reported relative to it)
+	OccBase map[string]int
 }
 
 // Issuer returns the issuer the configuration yields for host (static: constant).
@@ -195,6 +198,7 @@ type Reply struct {
 	PanicSite string // innermost repository function on the panic stack
 	Calls     []Call // storage calls made during this request
 	Wrote     bool   // false when the handler never wrote anything (recorder default 200)
+	Spawned   int    // goroutines the handler started (go statements of repository code)
 }
 
 // failWriter makes the n-th Write call (1-based) and every later one fail without writing.
@@ -224,6 +228,7 @@ func (w *World) DoFail(req *http.Request, failAt int) *Reply {
 		rw = &failWriter{ResponseRecorder: rec, failAt: failAt}
 	}
 	before := w.Store.CallCount()
+	spawnedBefore := vhook.GoSpawned.Load()
 	rep := &Reply{}
 	func() {
 		defer func() {
@@ -234,6 +239,16 @@ func (w *World) DoFail(req *http.Request, failAt int) *Reply {
 		}()
 		w.Handler.ServeHTTP(rw, req)
 	}()
+	if n := vhook.GoSpawned.Load() - spawnedBefore; n > 0 && vhook.GoFn == nil {
+		// the handler started goroutines: wait for them (free-running mode) and treat a panic in one of them as a panic
+		// of the request — in a real server it takes the process down
+		rep.Spawned = int(n)
+		panics, _ := vhook.GoWait(5 * time.Second)
+		if len(panics) > 0 && rep.Panic == "" {
+			rep.Panic = "in a goroutine started by the handler: " + panics[0]
+			rep.PanicSite = "goroutine"
+		}
+	}
 	rep.Status = rec.Code
 	rep.Header = rec.Header()
 	rep.Body = rec.Body.Bytes()
